@@ -248,10 +248,15 @@ func (s *server) GetTable(ctx context.Context, req *btapb.GetTableRequest) (*bta
 func (s *server) DeleteTable(ctx context.Context, req *btapb.DeleteTableRequest) (*emptypb.Empty, error) {
 	s.mu.Lock()
 	defer s.mu.Unlock()
-	if _, ok := s.tables[req.Name]; !ok {
+	tbl, ok := s.tables[req.Name]
+	if !ok {
 		return nil, status.Errorf(codes.NotFound, "table %q not found", req.Name)
 	}
 	delete(s.tables, req.Name)
+	// A storage layer that persists tables must forget this one, or it comes back on the next start.
+	if d, ok := s.storage.(interface{ DeleteTableMeta(tbl *btapb.Table) }); ok {
+		d.DeleteTableMeta(tbl.def)
+	}
 	return &emptypb.Empty{}, nil
 }
 
